@@ -46,7 +46,7 @@ ASSUMPTIONS = [
     'rejected call is not explored further',
     'the phase-lock sentence is checked after vle(...) calls only (the statement says "after a vapour-liquid calculation"), for '
     'the material that is in the g / l phases the calculation pools',
-    'methods other than the defaults (VLE fixed-point, LLE pseudo equilibrium) are not explored',
+    'VLE method shgo is explored on a reduced grid (c03.method.grid); LLE methods other than the default pseudo equilibrium are not explored',
     'the interning caches of thermosteam.equilibrium (BubblePoint/DewPoint/activity-coefficient objects) are cleared before every execution',
     'entropy-specified calls are not enumerated for mixtures containing a chemical whose entropy cannot be evaluated / is not the integral of Cn/T '
     '(vc.entropy_model_ok: Tetradecanol and unlocked Glucose raise TypeError because Chemical.Sfus is None -- a C07 matter, _chemical.py:1542)',
@@ -60,6 +60,7 @@ TOLERANCES = {'conservation_rtol_per_chemical': 1e-9, 'conservation_atol_rel_tot
 def oracle(system, st, action, before, obs):
     st.extra['last_kind'] = action[0]
     if action[0] in ('refill', 'pkg', 'edit', 'scale'): return       # the user changes the material; nothing is claimed about that step
+    if action[0] == 'vle' and action[1] in ('TPl', 'TPg'): return     # reactive flash: totals change by design; only the LATER plain calls are judged
     s = st.s
     after = vc.dense_by_phase(s)
     tb = sum(before['flows'].values()); ta = sum(after.values())
@@ -211,19 +212,93 @@ def sle_calls(cfg):
         for T in (300., 350.):
             for x in SOLUB:
                 out.append(('sle', 'Tx', sol, T, x))
+        # solubility relative to the mole fraction at COMPLETE dissolution of all the solute present (liquid + solid): below, at, just above, far above
+        for r in SOLUB_REL:
+            out.append(('sle', 'Txr', sol, 300., r))
     return out
+SOLUB_REL = (0.5, 0.98, 1.0, 1.02, 1.5)
 
 def sle_call_coords(a):
-    return (a[1], a[2], a[3] == 300., (a[4] == 0.0833) if len(a) > 4 else True)
+    return (a[1], a[2], a[3] == 300., (a[4] in (0.0833, 1.0)) if len(a) > 4 else True)
 
 SLE_GRID = Grid(
     'SLE', [c for c in subsets(SLE_IDS) if any(x in c for x in SOLUTES)], ('one', 'lo-1', 'hi-1'), ('one', 'lo0', 'hi0', 'lo-1', 'hi-1'),
-    ('l', 'ls', 'Sl', 'half'),
+    ('l', 'ls', 'Sl', 'half', 'sS', 'sH'),
     sle_calls, sle_call_coords,
     bases=[(('Water', 'Glucose'), 'one', 'l', ('T', 'Glucose', True, True)),
+           (('Water', 'Glucose'), 'one', 'sS', ('Txr', 'Glucose', True, True)),
+           (('Methanol', 'Ethanol', 'Tetradecanol'), 'one', 'sH', ('Txr', 'Tetradecanol', True, True)),
            (('Methanol', 'Tetradecanol'), 'one', 'ls', ('T', 'Tetradecanol', True, True)),
            (('Water', 'Methanol', 'Ethanol', 'Tetradecanol', 'Glucose'), 'one', 'l', ('Tx', 'Glucose', True, True))],
     max_dev=2)
+
+# the same grid on the ideal variant of the package: with IdealActivityCoefficients the computed-solubility path is a single-shot update
+SLEI_GRID = Grid(
+    'SLEi', [c for c in subsets(SLE_IDS) if any(x in c for x in SOLUTES)], ('one', 'lo-1', 'hi-1'), ('one', 'lo0', 'hi0', 'lo-1', 'hi-1'),
+    ('l', 'Sl', 'sS', 'sH'),
+    sle_calls, sle_call_coords,
+    bases=[(('Water', 'Glucose'), 'one', 'sS', ('T', 'Glucose', True, True)),
+           (('Methanol', 'Tetradecanol'), 'one', 'sH', ('T', 'Tetradecanol', True, True)),
+           (('Water', 'Methanol', 'Ethanol', 'Tetradecanol', 'Glucose'), 'one', 'l', ('Txr', 'Glucose', True, True))],
+    max_dev=2)
+
+class TwoGrids:
+    def __init__(self, *grids): self.grids = {g.pkg: g for g in grids}
+    def enum_configs(self, system, tier, seed):
+        return [c for g in self.grids.values() for c in g.enum_configs(system, tier, seed)]
+    def enum_actions(self, system, st):
+        return self.grids[st.config[0]].enum_actions(system, st)
+SLE_BOTH = TwoGrids(SLE_GRID, SLEI_GRID)
+
+# ---- the other VLE solver method ('shgo': Gibbs energy minimisation) on a reduced grid incl. non-condensable gas ---------------------------
+SHGO = ('opts', (('vle_method', 'shgo'),))
+# explicit flows: the non-condensable gas is a SMALL part of the stream in most cases (a large gas flow vaporises everything and the
+# solver is never asked for a split in which one volatile chemical is almost completely in the vapour)
+METHOD_COMPS_Q = [(('Water', 'Ethanol', 'N2'), (3., 1., 0.5)), (('Water', 'Ethanol', 'N2', 'Glucose'), (3., 1., 0.5, 0.2)), (('Water', 'Ethanol'), (1., 1.)),
+                  (('Ethanol', 'Propanol', 'N2'), (1., 1., 0.1)), (('Water', 'Ethanol', 'Propanol', 'N2', 'Glucose'), (1., 1., 1., 0.3, 0.3)), (('Water', 'Ethanol', 'N2'), (1., 1., 1.))]
+METHOD_CALLS_Q = [('vle', 'TP', 350., 101325.), ('vle', 'TP', 361., 101325.), ('vle', 'TP', 400., 1e6), ('vle', 'PV', 101325., 0.5), ('vle', 'PV', 101325., 0.8),
+                  ('vle', 'PV', 101325., 0.98), ('vle', 'TV', 350., 0.5), ('vle', 'TV', 355., 0.8), ('vle', 'PH', 101325., 0.3), ('vle', 'PH', 101325., 0.7), ('vle', 'PS', 101325., 0.3)]
+def method_configs(system, tier, seed):
+    out = []
+    if tier == 'quick':
+        for c, f in METHOD_COMPS_Q:
+            for dist in ('l', 'half'):
+                out.append(('VLE', c, f, dist, SHGO))
+    else:
+        locked = vc.locked_of('VLE')
+        for c in subsets(VLE_IDS):
+            if n_volatile('VLE', c) < 2: continue
+            for lock_flow in ((0.1, 1.0) if any(i in locked for i in c) else (1.0,)):
+                for first in (1., 3.):
+                    f = tuple((lock_flow if i in locked else 1.) for i in c)
+                    f = (first * f[0],) + f[1:] if c[0] not in locked else f
+                    for dist in ('l', 'Sl'):
+                        cfg = ('VLE', c, f, dist, SHGO)
+                        if cfg not in out: out.append(cfg)
+    k = seed % len(out)
+    return out[k:] + out[:k]
+def method_actions(system, st):
+    if st.n_calls >= 1: return []
+    if system.tier == 'quick': return list(METHOD_CALLS_Q)
+    out = []
+    V = {'T': (300., 350., 355., 361., 400.), 'P': (1e4, 101325., 1e6), 'V': (0.02, 0.5, 0.8, 0.98), 'H': (0., 0.3, 0.7, 1.), 'S': (0., 0.3, 0.7, 1.)}
+    for pair in ('TP', 'TV', 'PV', 'PH', 'PS'):
+        for a in V[pair[0]]:
+            for b in V[pair[1]]: out.append(('vle', pair, a, b))
+    return out
+
+# ---- reactive flash followed by plain flashes ---------------------------------------------------------------------------------------------
+REACT_CONFIGS = [('RX', ('Water', 'Ethanol', 'LacticAcid'), (1., 5., 1.), 'Sl'), ('RX', ('EthylLactate', 'LacticAcid', 'Water', 'Ethanol'), (0.5, 1., 1., 3.), 'l'),
+                 ('RX', ('Water', 'Ethanol', 'LacticAcid'), (2., 2., 2.), 'half')]
+REACT_PLAIN = [('vle', 'TP', 362., 101325.), ('vle', 'PV', 101325., 0.4), ('vle', 'TP', 358., 101325.), ('vle', 'TV', 360., 0.5), ('vle', 'PH', 101325., 0.5)]
+REACT_RX = [('vle', 'TPl', 360., 101325.), ('vle', 'TPg', 365., 101325.)]
+def react_configs(system, tier, seed):
+    c = REACT_CONFIGS[:2] if tier == 'quick' else REACT_CONFIGS
+    k = seed % len(c)
+    return c[k:] + c[:k]
+def react_actions(system, st):
+    plain = REACT_PLAIN[:3] if system.tier == 'quick' else REACT_PLAIN
+    return list(plain) + list(REACT_RX)
 
 # ---- histories ----------------------------------------------------------------------------------------------------------------
 
@@ -341,7 +416,14 @@ SYSTEMS = [
     FlashSystem('c03.order.grid', OVLE_GRID.enum_configs, OVLE_GRID.enum_actions, oracle, 1, 1, describe=describe_grid(OVLE_GRID)),
     FlashSystem('c03.salt.grid', SALT_GRID.enum_configs, SALT_GRID.enum_actions, oracle, 1, 1, describe=describe_grid(SALT_GRID)),
     FlashSystem('c03.lle.grid', LLE_GRID.enum_configs, LLE_GRID.enum_actions, oracle, 1, 1, describe=describe_grid(LLE_GRID)),
-    FlashSystem('c03.sle.grid', SLE_GRID.enum_configs, SLE_GRID.enum_actions, oracle, 1, 1, describe=describe_grid(SLE_GRID)),
+    FlashSystem('c03.sle.grid', SLE_BOTH.enum_configs, SLE_BOTH.enum_actions, oracle, 1, 1,
+                describe=lambda tier: dict(packages=['SLE (Dortmund)', 'SLEi (ideal activity coefficients)'], **describe_grid(SLE_GRID)(tier))),
+    FlashSystem('c03.method.grid', method_configs, method_actions, oracle, 1, 1,
+                describe=dict(package='VLE', vle_method='shgo', compositions='quick 6 explicit (N2 1-33 % of the stream, with / without Glucose); thorough every subset with >= 2 volatile chemicals x locked members at 0.1 / 1 x first chemical x1 / x3 x {l, Stream l}',
+                              calls='quick 10; thorough TP/TV/PV/PH/PS on T {300,350,361,400}, P {1e4,101325,1e6}, V {.02,.5,.8,.98}, fractions {0,.3,.7,1}')),
+    FlashSystem('c03.react', react_configs, react_actions, oracle, 3, 3,
+                describe=dict(package='RX = (EthylLactate, LacticAcid, Water, Ethanol)', alphabet='plain TP / PV / TV / PH calls + vle(T,P, liquid_conversion=) + vle(T,P, gas_conversion=) '
+                              '(LacticAcid + Ethanol -> Water + EthylLactate, X = 0.2); the reactive call itself is not judged, every later plain call is')),
     FlashSystem('c03.sle.hist', sle_his_configs, sle_his_actions, oracle, 2, 3,
                 describe=dict(alphabet='all 26 sle calls (2 solutes x (5 T + 2 T x 4 solubilities))', configurations='SLE_HIS_CONFIGS')),
     FlashSystem('c03.trace', trace_configs, trace_actions, oracle, 3, 3,
